@@ -1,6 +1,7 @@
 mod cases;
 mod checks;
 mod dsl;
+mod fault;
 mod gen;
 mod graph;
 mod interp;
